@@ -111,6 +111,33 @@ def main(tier, rep):
                 tr["steps"] = [("call", op, None, "deserialiser raises", "")]
                 tr["cfg"] = dict(cfg.__dict__)
                 traces.append(tr)
+        # the library's own serializers on stored items they cannot decode: every read is a miss
+        # (an empty / junk payload marked compressed, a non-numeric integer, text that is not UTF-8; a pickle that
+        # does not load is NOT among them: python_memcache_deserializer answers None for it by design -- the deserializer did not fail)
+        from lib import refserver
+        from pymemcache import serde as _serde
+        BAD_ITEMS = [(b"", _serde.FLAG_COMPRESSED), (b"not zlib at all", _serde.FLAG_COMPRESSED),
+                     (b"", _serde.FLAG_COMPRESSED | _serde.FLAG_PICKLE), 
+                     (b"12x", _serde.FLAG_INTEGER), (b"", _serde.FLAG_INTEGER), (b"", _serde.FLAG_LONG), (b"\xff\xfe", _serde.FLAG_TEXT)]
+        for kind in L.KINDS:
+            for op, _ in READS:
+                for bi, (payload, flags) in enumerate(BAD_ITEMS):
+                    cfg = L.Cfg(kind=kind, ignore_exc=True)
+                    st = L.Stack(cfg)
+                    sd = _serde.CompressedSerde() if bi % 2 == 0 or flags & _serde.FLAG_COMPRESSED else _serde.pickle_serde
+                    targets = [st.client] + list(getattr(st.client, "clients", {}).values())
+                    for t in targets:
+                        t.serde = sd
+                        if hasattr(t, "default_kwargs"):
+                            t.default_kwargs["serde"] = t.serde
+                    for k in list(st.srv.store):
+                        st.srv.store[k] = refserver.Item(payload, flags, 0, st.srv._next_cas())
+                    st.call(op, None, {("deser", 1): "raise", ("reply", 99): "error"}, "all", L.miss_result(cfg))
+                    st.call(op, None, {("deser", 1): "raise", ("reply", 99): "error"}, "bytes", L.miss_result(cfg))
+                    tr = st.finish()
+                    tr["steps"] = [("call", op, None, "stored item undecodable: %r flags=%d" % (payload, flags), "")]
+                    tr["cfg"] = dict(cfg.__dict__)
+                    traces.append(tr)
     finally:
         L.USE_DEFAULTS = False
     L.validate(rep, traces, relevant, PROP)
